@@ -189,14 +189,31 @@ Record accel := mkAcc { acc_name : nat; acc_supported : list supported }.
 Inductive dres (A : Type) := DOk (a : A) | DErr.   (* DErr: zip(..., strict=True) raised *)
 Arguments DOk {A}. Arguments DErr {A}.
 
+(* `any(t != k.type for t, k in zip(declared, actual, strict=True))`: the pairs are visited until the first
+   mismatch; zip raises ValueError only when one list ends before the other and no mismatch was seen before.
+   (corrected by the audit: the model raised whenever the lengths differ) *)
+Inductive tcheck := TEq | TMismatch | TRaise.
+Fixpoint types_check (a b : list Z) : tcheck :=
+  match a, b with
+  | [], [] => TEq
+  | x :: a', y :: b' => if x =? y then types_check a' b' else TMismatch
+  | _, _ => TRaise
+  end.
+
+(* check_types = false is the code before the repair of F17: every pair is visited (the inner `continue` does
+   nothing), so zip raises iff the lengths differ, and the first supported kernel of that kind matches *)
 Fixpoint find_supported_with (check_types : bool) (sks : list supported) (k : kernel) (tys : list Z) : dres bool :=
   match sks with
   | [] => DOk false
   | sk :: r =>
     if kernel_eqb (sk_kernel sk) k then
-      if negb (length (sk_types sk) =? length tys)%nat then DErr
-      else if check_types && negb (list_eqb Z.eqb (sk_types sk) tys) then find_supported_with check_types r k tys
-      else DOk true
+      if check_types then
+        match types_check (sk_types sk) tys with
+        | TEq => DOk true
+        | TMismatch => find_supported_with check_types r k tys
+        | TRaise => DErr
+        end
+      else if negb (length (sk_types sk) =? length tys)%nat then DErr else DOk true
     else find_supported_with check_types r k tys
   end.
 
